@@ -140,6 +140,15 @@ theorem C10_dns_answer_by_name_sound {O : Oracle} {c : Conf} {s : State} (hr : R
     ((∀ l ∈ s.leases, l.host ≠ n) → s.ipByHost n = 0) :=
   ⟨fun hne => ipByHost_sound hr.inv hne rfl, fun ha => ipByHost_absent hr.inv ha⟩
 
+/-- `reset_leases` on the running server leaves nothing behind: empty table, no
+bit set, empty indexes, an empty file — so the whole pool is on offer again
+(`C10_offer_liveness` applies to the state it leaves, which is reachable). -/
+theorem C10_reset_leases_frees_everything {O : Oracle} {c : Conf} (s : State) :
+    (step O c s .resetLeases).1.leases = [] ∧ (∀ o, (step O c s .resetLeases).1.bits o = false) ∧
+    (∀ ip, (step O c s .resetLeases).1.ips ip = none) ∧ (∀ h, (step O c s .resetLeases).1.hosts h = none) ∧
+    (step O c s .resetLeases).1.disk = some [] :=
+  ⟨rfl, fun _ => rfl, fun _ => rfl, fun _ => rfl, rfl⟩
+
 /-! ### the database file -/
 
 /-- Every operation other than a restart ends with `dbStore` or changes neither
